@@ -2948,6 +2948,19 @@ bus_connection_request_headers (DBusConnection  *connection,
 #include <stdlib.h>
 
 void bus_verif_connections_state (BusConnections *connections, FILE *out);
+const char *bus_verif_connection_name (DBusConnection *connection);
+
+/* like bus_connection_get_name(), but safe for connections that are being torn down */
+const char *
+bus_verif_connection_name (DBusConnection *connection)
+{
+  BusConnectionData *d;
+
+  if (connection == NULL || connection_data_slot < 0)
+    return "?";
+  d = BUS_CONNECTION_DATA (connection);
+  return (d != NULL && d->name != NULL) ? d->name : "?";
+}
 
 #define VERIF_FAIL(...) do { fprintf (stderr, "VERIF-INVARIANT " __VA_ARGS__); fputc ('\n', stderr); abort (); } while (0)
 
@@ -2958,6 +2971,9 @@ bus_verif_connections_state (BusConnections *connections,
   DBusList *link;
   BusContext *context = connections->context;
   int n;
+
+  if (connection_data_slot < 0)
+    return;
 
   n = _dbus_list_get_length (&connections->completed);
   if (n != connections->n_completed)
@@ -3022,9 +3038,8 @@ bus_verif_connections_state (BusConnections *connections,
            link = bus_expire_list_get_next_link (connections->pending_replies, link))
         {
           BusPendingReply *pending = link->data;
-          const char *a = bus_connection_get_name (pending->will_get_reply);
-          const char *b = bus_connection_get_name (pending->will_send_reply);
-          fprintf (out, "P %s %s %u\n", a ? a : "?", b ? b : "?", (unsigned) pending->reply_serial);
+          fprintf (out, "P %s %s %u\n", bus_verif_connection_name (pending->will_get_reply),
+                   bus_verif_connection_name (pending->will_send_reply), (unsigned) pending->reply_serial);
         }
     }
 }
